@@ -414,6 +414,19 @@ func runProperty(repo, mirror, id string, timeout int, tier string) *checkResult
 		return res
 	}
 	p.CS = cs
+	if only := os.Getenv("GOVC_DEV_ONLY"); only != "" {
+		// developer aid (never set by a registered command): keep only the rules whose text contains the string and
+		// skip the function contracts, so that one rule can be tried in seconds; the run prints a reminder
+		var keep []*Directive
+		for _, d := range cs.Dirs {
+			if strings.Contains(d.Text, only) {
+				keep = append(keep, d)
+			}
+		}
+		cs.Dirs = keep
+		cs.Order = nil
+		fmt.Println("GOVC_DEV_ONLY set: partial run, not a verdict")
+	}
 	res.loadSecs = time.Since(t0).Seconds()
 	for _, n := range cs.Notes {
 		res.notes[n] = true
